@@ -3,6 +3,8 @@ package rules
 import (
 	"go/ast"
 	"go/types"
+	"sort"
+	"strings"
 
 	"verif/mlbcheck/chk"
 )
@@ -54,6 +56,7 @@ func runC06(p *chk.Prog, r *chk.Report) {
 	syncStateRule(p, r)
 	c06Handler(p, r)
 	c06Clear(p, r)
+	c06ReadoptFirst(p, r)
 	releaseOnExitRule(p, r)
 	// a request refused after its addresses were assigned gives them back (REQUEST-IPS, shared with C02): otherwise the
 	// allocator's memory holds an address that no status records, and a restarted controller disagrees with the running one
@@ -555,4 +558,60 @@ func isReloadSend(f *chk.Fn, nd ast.Node) bool {
 		return true
 	})
 	return found
+}
+
+// c06ReadoptFirst (shared with C03): the first full pass re-adopts every recorded address before any Service is given a
+// fresh one. The pass orders the Services by the number of recorded addresses, but it hands each of them to the one
+// handler that re-adopts *and* allocates: a Service of the "assigned" group that needs a fresh address (its recorded one is
+// no longer in a pool; a PreferDualStack Service holding one address while a second is free) is served from what looks
+// free at that moment, i.e. including the recorded addresses of the Services behind it in the list.
+func c06ReadoptFirst(p *chk.Prog, r *chk.Report) {
+	x := r.Rule("READOPT-FIRST", "B path + call graph", "in (*ServiceReconciler).reprocessAll the loop that hands Services to r.Handler (the handler that may allocate fresh addresses: controller.SetBalancer -> convergeBalancer -> allocateIPs / AllocateFromPoolForAdditionalFamily) runs only after a complete earlier pass over the same Services that re-adopts their recorded addresses without allocating", 1)
+	f := need(x, p, ctrlPkg, "ServiceReconciler", "reprocessAll")
+	sb := need(x, p, "controller", "controller", "SetBalancer")
+	if f == nil || sb == nil {
+		return
+	}
+	g := f.Graph()
+	// the handler allocates: SetBalancer reaches the allocating entry points of the allocator
+	closure, _ := p.Closure(sb)
+	var allocs []string
+	for _, cf := range closure {
+		switch cf.Name() {
+		case "(*internal/allocator.Allocator).AllocateFromPool", "(*internal/allocator.Allocator).Allocate", "(*internal/allocator.Allocator).AllocateFromPoolForAdditionalFamily":
+			allocs = append(allocs, cf.Name())
+		}
+	}
+	sort.Strings(allocs)
+	calls := g.FindPat("RECV.Handler(ETC)", chk.H("RECV", isRecv(f)))
+	if len(calls) == 0 {
+		x.Fail("reprocessAll:handler-call", f.Pos(), "no handler call")
+		return
+	}
+	ok := len(allocs) == 0
+	for _, c := range calls {
+		hl, _ := f.LoopOf(c.Node).(*ast.RangeStmt)
+		if hl == nil {
+			continue
+		}
+		// an earlier complete pass over the same list that calls a hook of the reconciler other than Handler
+		for _, rs := range f.RangeLoops(func(e ast.Expr) bool { return f.SameExpr(e, hl.X) || f.SameValue(f.Resolve(e), f.Resolve(hl.X)) }) {
+			if rs == hl || !g.AfterLoop(c, rs) || loopHasBreak(g, rs) {
+				continue
+			}
+			hook := false
+			ast.Inspect(rs.Body, func(n ast.Node) bool {
+				if call, isCall := n.(*ast.CallExpr); isCall {
+					if b := f.MatchWith("RECV.F(ETC)", call, chk.H("RECV", isRecv(f))); b != nil && f.MatchWith("RECV.Handler(ETC)", call, chk.H("RECV", isRecv(f))) == nil {
+						hook = true
+					}
+				}
+				return true
+			})
+			if hook {
+				ok = true
+			}
+		}
+	}
+	x.Check("reprocessAll:readopt-pass-before-allocating-pass", calls[0].Pos(), ok, "", "the first full pass hands every Service to the allocating handler ("+strings.Join(allocs, ", ")+" are reachable from it) while recorded addresses of later Services are not yet re-adopted: a Service that needs a fresh address during that pass can be given an address another Service records")
 }
